@@ -133,6 +133,8 @@ class _DaliserverConn:
             oc = self.model.outcomes.get((16, (data[2] << 8) | data[3]), ("silent",))
             if oc[0] == "value":
                 self.replies.append(bytes([2, 1, oc[1], 0]))
+            elif oc[0] == "reset":
+                self.replies.append(ConnectionResetError(104, "connection reset by daliserver"))
             elif oc[0] == "error":
                 self.replies.append(bytes([2, 255, 0, 0]))
             else:
@@ -144,7 +146,10 @@ class _DaliserverConn:
     def recv(self, n):
         if not self.replies:
             return b""
-        return self.replies.pop(0)
+        r = self.replies.pop(0)
+        if isinstance(r, Exception):
+            raise r
+        return r
 
     def close(self):
         self.closed = True
@@ -175,10 +180,23 @@ def run_daliserver(case):
                 for c, cmd in cmds:
                     results.append(d.send(cmd))
         except Exception as e:  # noqa
-            if library_frame(e.__traceback__) is None:
-                raise
-            return [("C16:daliserver:send-raised:%s" % type(e).__name__, "daliserver history %r (%s): %r"
-                     % ([c["k"] for c, _ in cmds], "persistent" if persistent else "per-command", e))]
+            k_bad = len(results)
+            if isinstance(e, OSError) and k_bad < len(cmds) and tuple(cmds[k_bad][0].get("oc", ()))[:1] == ("reset",):
+                # the connection broke in the middle of this exchange: nothing can be said about the bus, the caller is
+                # told (no answer is made up); the history ends here
+                cmds = cmds[:k_bad]
+            else:
+                if library_frame(e.__traceback__) is None and not isinstance(e, OSError):
+                    raise
+                return [("C16:daliserver:send-raised:%s" % type(e).__name__, "daliserver history %r (%s): %r"
+                         % ([c["k"] for c, _ in cmds], "persistent" if persistent else "per-command", e))]
+        else:
+            if any(tuple(c.get("oc", ()))[:1] == ("reset",) for c, _ in cmds):
+                k_bad = next(i for i, (c, _) in enumerate(cmds) if tuple(c.get("oc", ()))[:1] == ("reset",))
+                return [("C16:daliserver:answer-made-up-after-broken-connection", "daliserver history %r (%s): the connection was "
+                         "reset while command %d waited for its reply; send() returned %r instead of raising"
+                         % ([c["k"] for c, _ in cmds], "persistent" if persistent else "per-command", k_bad,
+                            sc.describe_response(results[k_bad])))]
     finally:
         D.socket = saved
     mode = "persistent connection" if persistent else "connection per command"
@@ -618,8 +636,8 @@ def sync_case(draw):
         c = {"k": k, "a": 3 + j}
         cmd = sc.build_cmd(c)
         if cmd.response is not None:
-            o = draw(st.sampled_from(["silent", "value", "error"] if drv == "daliserver" else ["silent", "value"]))
-            c["oc"] = ["value", draw(st.integers(0, 255))] if o == "value" else [o] if o == "silent" else ["error", 0]
+            o = draw(st.sampled_from(["silent", "value", "error", "value", "reset"] if drv == "daliserver" else ["silent", "value"]))
+            c["oc"] = ["value", draw(st.integers(0, 255))] if o == "value" else [o] if o in ("silent", "reset") else ["error", 0]
         cmds.append(c)
     case = {"driver": drv, "cmds": cmds}
     if drv == "daliserver":
